@@ -704,6 +704,8 @@ class Translator:
                         try:
                             ty = P(tokenize(mm.group(2)), m).type()
                             n0 = newty[mm.group(1)][0]
+                            if t.opts.get('no_typed_arrays') and (n0 is None or n0 != m.size_align(ty)[0]):
+                                continue   # unit option: only single objects are typed (round-1 behaviour)
                             if ty.k in ('named', 'struct', 'ptr') and (n0 is None or (m.size_align(ty)[0] > 0 and n0 % m.size_align(ty)[0] == 0)):
                                 newty[mm.group(1)][1] = ty
                         except Exception:
